@@ -64,8 +64,11 @@ theorem gen_sem_msl_vec_expr {W : World} {M : Msl.MWorld} {env : VAst.VEnv} {cx 
   exact (sim_mv (ρ := fun x => match vvty x with | .sc _ => .sc .void | .vec _ n => .vec (List.replicate n .void)) hag hw
     (by intro x; cases h : vvty x <;> simp [VOk.shaped, h]) e a t hg ht hok).1
 
-/-- the exporter generates whenever the expression is accepted and nameable: no panic, no diagnostic inside the side
-conditions (the converse direction of the hypothesis `hg`) is *not* claimed here; see `literal_vector_cast_panics_msl` -/
+/-- a cast to a *vector of a literal type* cannot be exported: `generate_type` reaches
+`generate_scalar_type(IntLiteral / FloatLiteral)` and panics — the drop-the-cast rule only looks at scalar targets.  The arm
+is still in the source, but since fixes 40c6233 (binary operations) and c05bffa (the arms of `?:`) the type checker no longer
+builds such a cast (see `msl_vector_op_literal_in_concrete_type`; the two known findings are `fixed` records whose
+reproducers stay in the corpus). -/
 theorem literal_vector_cast_panics_msl (cx : Ctx) (vvty : Var → VTy) (n : Nat) (id : Nat) :
     (∃ s, genMV cx vvty (.cast (.vec .lit n) (.vvar id)) = .error (.panic s)) ∧
     (∃ s, genMV cx vvty (.cast (.vec .flit n) (.vvar id)) = .error (.panic s)) := by
@@ -198,6 +201,60 @@ example : ∃ a, genMV C02Sem.cxW vvtyEx vExM = .ok a ∧ VMsl.typeOf C02Sem.M2.
     ∀ ρ, (∀ x, VOk.shaped (vvtyEx x) (ρ x) = true) → ∀ σ, VMsl.eval C02Sem.M2 envV ρ a σ = VIr.eval C02Sem.W2 ρ vExM σ := by
   refine ⟨_, rfl, ?_⟩
   exact gen_sem_msl_vec_expr agreeV C02Sem.worlds2 vExM _ (.vec .int 2) rfl (by decide) (by decide)
+
+/-! ### a vector operation with a literal operand (fixes 40c6233 / c05bffa)
+
+Before the fixes the type checker computed `b + 1` (`b : bool3`), `v * 1.5` (`v : int3`) and `c ? v : 1.5` in a *vector of the
+literal type* — `Cast(IntLiteral3, b)` — and the exporter panicked in `generate_scalar_type` (two known findings, now `fixed`
+records).  Now the literal receives the concrete type: `Add(Cast(int3, b), Cast(int3, 1))`.  The side conditions were extended
+to that form (`VOk.litOperandOK`), so the trees are instances of `gen_sem_msl_vec_expr`. -/
+
+/-- `b + 1` with `b : bool3`, as typed since fix 40c6233 -/
+def eBoolVecPlusLit : VExpr :=
+  .op .Add (.cons (.cast (.vec .int 3) (.vvar 1)) (.cons (.cast (.vec .int 3) (.sc (.lit (.intLit 1)))) .nil))
+
+/-- `v * 1.5` with `v : int3` -/
+def eIntVecTimesFlit : VExpr :=
+  .op .Multiply (.cons (.cast (.vec .float 3) (.vvar 1))
+    (.cons (.cast (.vec .float 3) (.sc (.lit (.floatLit 0x3ff8000000000000#64)))) .nil))
+
+/-- `s0 != 0 ? v : -7` with `v : int3` next to a negative literal, as typed since fix c05bffa (the arms of `?:`) -/
+def eTernVecLit : VExpr :=
+  .tern (.sc (.op .Inequality (.cons (.var 0) (.cons (.lit (.int32 0#32)) .nil))))
+    (.vvar 1) (.cast (.vec .int 3) (.sc (.lit (.intLit (-7)))))
+
+def vvtyB : Var → VTy := fun _ => .vec .bool 3
+def envB : VAst.VEnv := { base := C02Sem.envW, vres := C02Sem.envW.res, vvty := vvtyB }
+theorem agreeB : VAgreeM C02Sem.cxW (fun _ => true) envB vvtyB where
+  base := C02Sem.agreeW
+  vres x _ := C02Sem.agreeW.res x rfl
+  vvty := rfl
+
+/-- **a vector operation with a literal operand is exported and keeps its meaning** — the positive statement that replaces
+the known findings `b + 1` / `v * 1.5` (panic `int literal / float literal should not be required on output`) after fixes
+40c6233 and c05bffa: the trees the type checker now builds are accepted (`VIr.typeOf`), lie inside the side conditions, are
+exported as `(int3)b + (int3)1`, `(float3)v * (float3)1.5`, `c ? v : (int3)-7`, and the emitted expression has the IR's type
+under Metal's rules and evaluates to the IR's value and store for every well-shaped value of the vector, every store and every
+interpretation of the primitives (instances of `gen_sem_msl_vec_expr`). -/
+theorem msl_vector_op_literal_in_concrete_type :
+    genMV C02Sem.cxW vvtyB eBoolVecPlusLit
+      = .ok (.bin .Add (.cast "int3" (.ident "ll")) (.cast "int3" (.sc (.lit (.intUntyped 1))))) ∧
+    (∀ a, genMV C02Sem.cxW vvtyB eBoolVecPlusLit = .ok a →
+      VMsl.typeOf C02Sem.M2.msig envB a = some (.vec .int 3) ∧
+      ∀ ρ, (∀ x, VOk.shaped (vvtyB x) (ρ x) = true) → ∀ σ, VMsl.eval C02Sem.M2 envB ρ a σ = VIr.eval C02Sem.W2 ρ eBoolVecPlusLit σ) ∧
+    genMV C02Sem.cxW vvtyEx eIntVecTimesFlit
+      = .ok (.bin .Multiply (.cast "float3" (.ident "ll")) (.cast "float3" (.sc (.lit (.floatUntyped 0x3ff8000000000000#64))))) ∧
+    (∀ a, genMV C02Sem.cxW vvtyEx eIntVecTimesFlit = .ok a →
+      VMsl.typeOf C02Sem.M2.msig envV a = some (.vec .float 3) ∧
+      ∀ ρ, (∀ x, VOk.shaped (vvtyEx x) (ρ x) = true) → ∀ σ, VMsl.eval C02Sem.M2 envV ρ a σ = VIr.eval C02Sem.W2 ρ eIntVecTimesFlit σ) ∧
+    (∃ a, genMV C02Sem.cxW vvtyEx eTernVecLit = .ok a ∧
+      VMsl.typeOf C02Sem.M2.msig envV a = some (.vec .int 3) ∧
+      ∀ ρ, (∀ x, VOk.shaped (vvtyEx x) (ρ x) = true) → ∀ σ, VMsl.eval C02Sem.M2 envV ρ a σ = VIr.eval C02Sem.W2 ρ eTernVecLit σ) :=
+  ⟨rfl,
+   fun a h => gen_sem_msl_vec_expr agreeB C02Sem.worlds2 eBoolVecPlusLit a (.vec .int 3) h (by decide) (by decide),
+   rfl,
+   fun a h => gen_sem_msl_vec_expr agreeV C02Sem.worlds2 eIntVecTimesFlit a (.vec .float 3) h (by decide) (by decide),
+   ⟨_, rfl, gen_sem_msl_vec_expr agreeV C02Sem.worlds2 eTernVecLit _ (.vec .int 3) rfl (by decide) (by decide)⟩⟩
 
 /-- **negation witness** (known finding *metal-cast-not-allowed*): a cast of a vector to a one-component vector type is
 emitted as a cast to the *scalar* name without the `.x` selection (`try_implicit_truncate` only looks for `Scalar(_)`):
